@@ -113,6 +113,10 @@ func floors(tier string) map[string]int64 {
 		"cuts_right_before_marker":   90,
 		"cuts_right_after_marker":    90,
 		"restart_variants":           160,
+		// rotation between two Group.Write calls of the encoder, and layouts past file index 999
+		"concurrent_rotation_cases":           8,
+		"rotation_ticks_between_group_writes": 12,
+		"cases_with_file_index_above_999":     1,
 	}
 	if tier == "thorough" {
 		for k, v := range f {
@@ -269,6 +273,31 @@ func (k *caseCtx) subdir(name string) string {
 
 func run(c *core.Ctx) {
 	p := genPlan(c.Rng.Split(), c.Tier)
+	if c.Index%6 == 5 {
+		// concurrent-rotation cases: no restarts / explicit ticks inside the write phase, a rotator goroutine instead
+		var ops []op
+		for _, o := range p.Ops {
+			if o.K == "w" || o.K == "flush" {
+				ops = append(ops, o)
+			}
+		}
+		p.Ops = ops
+		p.Rotator = c.Rng.Range(20, 300)
+		if c.Index%12 == 11 {
+			// the deterministic variant: the tick fires after chosen Group.Write calls, no second goroutine
+			p.Rotator = 0
+		}
+		p.TickAfter = map[int]bool{}
+		for i, n := 0, c.Rng.Range(3, 40); i < n; i++ {
+			p.TickAfter[c.Rng.Range(1, 2*len(ops)+2)] = true
+		}
+		if c.Index%48 == 47 {
+			// the file index passes three digits before the first record of the plan is written
+			p.PreRotate = 1000 + c.Rng.Range(0, 40)
+			p.Rotator = c.Rng.Range(5, 60)
+		}
+		c.Count("concurrent_rotation_cases", 1)
+	}
 	k := &caseCtx{c: c, p: p, r: c.Rng.Split(), seen: map[string]bool{}}
 	w, L, vs := execPlan(p, k.subdir("w"))
 	k.L = L
@@ -318,6 +347,7 @@ func run(c *core.Ctx) {
 		}
 	}
 	c.Count("rotations", int64(L.Rotations))
+	c.Count("rotation_ticks_between_group_writes", int64(L.TicksBetweenWrites))
 	c.Count("restarts", int64(L.Restarts))
 	c.Count("log_bytes", int64(len(L.Log)))
 	c.Max("files", int64(len(L.Files)))
@@ -340,11 +370,21 @@ func run(c *core.Ctx) {
 	}
 	plainLane(k)
 	lap("plain")
-	if !k.stop {
+	// the damage lanes re-create the group once per damaged variant: with hundreds of (mostly empty) files of a
+	// long concurrent-rotation case that is all file-system work and no new damage; those cases keep the clean
+	// read-back and the marker search on the intact group (above), the plain lane and the restart lane
+	many := len(L.Files) > 150
+	if many {
+		c.Count("cases_with_more_than_150_files", 1)
+		if len(L.Files) > 1000 {
+			c.Count("cases_with_file_index_above_999", 1)
+		}
+	}
+	if !k.stop && !many {
 		groupCorruptLane(k)
 		lap("group-corrupt")
 	}
-	if !k.stop {
+	if !k.stop && !many {
 		crashImageLane(k)
 		lap("crash-image")
 	}
